@@ -270,3 +270,31 @@ Proof.
   rewrite nth_error_map in Hx. destruct (nth_error inputs i) as [s|] eqn:Es; [|discriminate]. injection Hx as <-.
   exists g, a, s, d. repeat split; try assumption; try reflexivity. symmetry. exact Hcall.
 Qed.
+
+(* ------------------------------------------------------------------------------------------------
+   the property's wording, entry by entry
+   ------------------------------------------------------------------------------------------------ *)
+Definition entries_of (r : edx) : list entry := match r with ESingle e => [e] | EMulti _ l => l end.
+
+Lemma wf_edx_entries : forall S r, wf_edx S r <-> Forall (wf_entry S) (entries_of r).
+Proof.
+  intros S r. destruct r as [e|ov l]; simpl; [|tauto].
+  split; [intro H; constructor; [exact H | constructor] | intro H; inversion H; assumption].
+Qed.
+
+(* no pinned ok anywhere: ok is True exactly when the grade is 1, False exactly when it is 0, 'partial' otherwise *)
+Definition consistent (e : entry) : Prop :=
+  0 <= e_grade e <= 1 /\
+  (e_ok e = OkTrue <-> e_grade e == 1) /\ (e_ok e = OkFalse <-> e_grade e == 0) /\
+  (e_ok e = OkPartial <-> (~ e_grade e == 0 /\ ~ e_grade e == 1)).
+
+Lemma wf_unpinned_consistent : forall e, wf_entry (fun _ => False) e -> consistent e.
+Proof.
+  intros e [Hg [Hok | [_ []]]]. unfold consistent. rewrite Hok. split; [exact Hg|].
+  split; [apply grade_to_ok_true_iff|]. split; [apply grade_to_ok_false_iff | apply grade_to_ok_partial_iff].
+Qed.
+
+(* with pins: a disagreement between ok and grade can only be an author pin, and only at full credit *)
+Lemma wf_pinned_only_at_full_credit : forall S e, wf_entry S e ->
+  e_ok e <> grade_to_ok (e_grade e) -> e_grade e == 1 /\ S (e_ok e).
+Proof. intros S e [_ [H | H]] Hne; [contradiction | exact H]. Qed.
